@@ -80,6 +80,10 @@ pub struct BoundCase {
     pub phc: Option<i64>,
     pub drift: u32,
     pub as_of_ns: i64,
+    /// value the PHC error-bound file held at the previous poll (the same report is polled twice
+    /// through the real poller loop, the file changing in between)
+    #[serde(default)]
+    pub phc_prev: Option<i64>,
 }
 
 fn c07_strategy() -> BoxedStrategy<BoundCase> {
@@ -91,8 +95,9 @@ fn c07_strategy() -> BoxedStrategy<BoundCase> {
         prop_oneof![3 => Just(None), 2 => (0i64..(1 << 50)).prop_map(Some), 1 => Just(Some(0i64)), 1 => (0i64..100_000).prop_map(Some)],
         any::<u32>(),
         0i64..4_000_000_000_000_000_000,
+        prop_oneof![2 => Just(None), 1 => (0i64..(1 << 50)).prop_map(Some), 1 => (0i64..1000).prop_map(Some)],
     )
-        .prop_map(|(offset, delay, disp, leap, phc, drift, as_of)| BoundCase {
+        .prop_map(|(offset, delay, disp, leap, phc, drift, as_of, phc_prev)| BoundCase {
             report: WireReport {
                 ref_id: 0x50484330,
                 leap,
@@ -105,6 +110,7 @@ fn c07_strategy() -> BoxedStrategy<BoundCase> {
             phc,
             drift,
             as_of_ns: as_of,
+            phc_prev,
         })
         .boxed()
 }
@@ -142,7 +148,7 @@ pub fn judge_bound(report: &WireReport, bound: i64) -> Result<(), String> {
     Ok(())
 }
 
-fn check_c07_case(case: &BoundCase, _env: &mut Env) -> Verdict {
+fn check_c07_case(case: &BoundCase, env: &mut Env) -> Verdict {
     let mut v = Verdict::default();
     let r = &case.report;
     if r.offset.coef < 0 {
@@ -193,6 +199,64 @@ fn check_c07_case(case: &BoundCase, _env: &mut Env) -> Verdict {
     if recs[0].status != 1 {
         v.fail(format!("published status {} after a synchronised report", recs[0].status));
     }
+    drop(recs);
+    // the PHC term end to end: the same report polled twice through the real poller loop while the
+    // PHC error-bound file changes from phc_prev to phc; each published bound must carry the value
+    // the file holds at that poll
+    if let (Some(v1), Some(v2)) = (case.phc_prev, case.phc) {
+        use crate::props::poller::{poll_batch, Answer, BatchStep};
+        v.label("phc-file-changes-between-polls");
+        v.sub_evals += 2;
+        let path = env.fresh_path("c07-phc");
+        std::fs::write(&path, format!("{}\n", v1)).unwrap();
+        let phc = clock_bound_d::PhcInfo {
+            refid: r.ref_id,
+            sysfs_error_bound_path: path.clone(),
+        };
+        let mut poller = dv::Poller::default();
+        let p2 = path.clone();
+        let steps = vec![
+            BatchStep {
+                gap_ns: 1_000_000_000,
+                latency_ns: 1000,
+                answer: Answer::Tracking(*r),
+                read_delays: vec![],
+                at_start: None,
+            },
+            BatchStep {
+                gap_ns: 1_000_000_000,
+                latency_ns: 1000,
+                answer: Answer::Tracking(*r),
+                read_delays: vec![],
+                at_start: Some(Box::new(move || std::fs::write(&p2, format!("{}\n", v2)).unwrap())),
+            },
+        ];
+        let obs = poll_batch(&mut poller, Some(phc), steps, &vc);
+        let sink2 = RecSink::default();
+        let mut up2 = dv::Updater::new(sink2.clone(), case.drift);
+        for (k, o) in obs.iter().enumerate() {
+            match &o.message {
+                Some(Message::ClockErrorBoundData((t, p, a))) => up2.process_clock_update(*t, *p, *a),
+                m => v.fail(format!("poll {} of a report whose reference is the PHC produced {:?}", k, m)),
+            }
+        }
+        let recs2 = sink2.0.borrow();
+        for (k, want_phc) in [v1, v2].iter().enumerate() {
+            if let Some(rec) = recs2.get(k) {
+                if rec.bound as i128 != bound as i128 + *want_phc as i128 {
+                    v.fail(format!(
+                        "poll {}: the PHC error-bound file holds {} but the published bound {} is the derived bound {} plus {}",
+                        k,
+                        want_phc,
+                        rec.bound,
+                        bound,
+                        rec.bound as i128 - bound as i128
+                    ));
+                }
+            }
+        }
+        let _ = std::fs::remove_file(&path);
+    }
     v
 }
 
@@ -200,7 +264,7 @@ impl Property for C07 {
     type Case = BoundCase;
     const ID: &'static str = "C07";
     fn rule() -> String {
-        "cases = tracking replies built at wire level (exponent and coefficient fields of the 32-bit chrony floats drawn separately, whole reply deserialised by chrony-candm): |offset| (random sign), delay, dispersion in [0, 2^20 s] incl. 0, the smallest positive value per exponent down to 2^-64 s, powers of two, normalised us..ms values; PHC error bound absent or in [0,2^50]. Oracle: S = (|offset|+disp+delay/2)*1e9 as an exact integer over 2^66; require 0 <= bound, S(1-2^-45) <= bound <= ceil(S(1+2^-45)), published = bound + PHC. Non-trivial: offset < 0, or S not an integer, or all three terms non-zero.".into()
+        "cases = tracking replies built at wire level (exponent and coefficient fields of the 32-bit chrony floats drawn separately, whole reply deserialised by chrony-candm): |offset| (random sign), delay, dispersion in [0, 2^20 s] incl. 0, the smallest positive value per exponent down to 2^-64 s, powers of two, normalised us..ms values; PHC error bound absent or in [0,2^50]. Oracle: S = (|offset|+disp+delay/2)*1e9 as an exact integer over 2^66; require 0 <= bound, S(1-2^-45) <= bound <= ceil(S(1+2^-45)), published = bound + PHC; for a quarter of the cases the same report is also polled twice through the real poller loop while the PHC error-bound file changes, and each published bound must carry the value the file holds at that poll. Non-trivial: offset < 0, or S not an integer, or all three terms non-zero.".into()
     }
     fn assumptions() -> Vec<String> {
         vec!["floating-point tolerance 2^-45 relative on the sum; values restricted to exponents -39..21 (2^-64 s .. 2^20 s) so that the result fits i64/f64".into()]
@@ -221,7 +285,7 @@ impl Property for C07 {
         Some(crate::fuzzdec::decode_bound_case(d))
     }
     fn floors() -> Vec<(&'static str, f64)> {
-        vec![("negative-offset", 0.4), ("fractional-ns-sum", 0.3), ("integral-ns-sum", 0.003), ("phc", 0.3), ("sub-nanosecond-sum", 0.001)]
+        vec![("negative-offset", 0.4), ("fractional-ns-sum", 0.3), ("integral-ns-sum", 0.003), ("phc", 0.3), ("sub-nanosecond-sum", 0.001), ("phc-file-changes-between-polls", 0.1)]
     }
     fn extra(_tier: Tier, _env: &mut Env, _seed: u64) -> Extra {
         let mut ex = Extra::default();
@@ -244,7 +308,8 @@ pub struct ClassCase {
     pub interval: WireFloat,
     /// now - ref_time in ns (negative: reference time in the future)
     pub age_ns: i64,
-    /// outcomes fed before (drives the FSM to a starting state): 0 none, 1 sync, 2 sync+unsync, 3 sync+unusable
+    /// outcomes fed before (drives the FSM to a starting state): 0 none, 1 sync, 2 sync+unsync, 3 sync+unusable,
+    /// 4 the very same report delivered once before, at the instant of its reference time
     pub prefix: u8,
 }
 
@@ -280,7 +345,7 @@ fn c10_strategy() -> BoxedStrategy<ClassCase> {
         wf_interval(),
         0u8..14,
         any::<u64>(),
-        0u8..4,
+        0u8..5,
     )
         .prop_map(|(leap, interval, sel, rnd, prefix)| ClassCase {
             leap,
@@ -383,9 +448,18 @@ fn check_c10_case(case: &ClassCase, _env: &mut Env) -> Verdict {
     let sink = RecSink::default();
     let mut up = dv::Updater::new(sink.clone(), 1000);
     let mut seen_sync = false;
-    if case.prefix >= 1 {
+    if case.prefix >= 1 && case.prefix <= 3 {
         up.process_clock_update(tracking_of(&fresh_sync_report()), 0, ts(1_000_000_000));
         seen_sync = true;
+    }
+    if case.prefix == 4 && case.age_ns >= 0 {
+        // chronyd gives the bit-identical report twice: first when it is brand new ...
+        v.label("same-report-seen-before");
+        vc.set(5_000_000_000_000 - case.age_ns as i128, (NOW_NS - case.age_ns) as i128);
+        up.process_clock_update(tracking_of(&report), 0, ts(1_000_000_000));
+        seen_sync = case.leap <= 2;
+        // ... and again now
+        vc.set(5_000_000_000_000, NOW_NS as i128);
     }
     if case.prefix == 2 {
         let mut r = fresh_sync_report();
@@ -499,6 +573,9 @@ pub enum Outcome {
     PhcFail { grace: bool },
     /// a message that is not a poll outcome (must not publish)
     Other { k: u8 },
+    /// chronyd answers with the bit-identical report it gave last time (same reference time): its
+    /// class follows from its age *now*
+    Repeat,
 }
 
 #[derive(Clone, Debug, Serialize, Deserialize, PartialEq)]
@@ -533,7 +610,14 @@ fn outcome_class(o: &Outcome) -> Option<Class> {
             }
         }
         Outcome::Other { .. } => return None,
+        // resolved from the repeated report's age by the caller (see repeat_classes)
+        Outcome::Repeat => Class::FreeRunning,
     })
+}
+
+/// Classes admissible for a report repeated at `real_now`.
+fn repeat_classes(r: &WireReport, real_now: i128) -> Vec<Class> {
+    admissible_classes(r.leap, &r.interval, real_now - r.ref_time_ns as i128)
 }
 
 fn sync_outcome() -> BoxedStrategy<Outcome> {
@@ -550,7 +634,7 @@ fn sync_outcome() -> BoxedStrategy<Outcome> {
         .boxed()
 }
 
-fn nonsync_outcome() -> BoxedStrategy<Outcome> {
+fn nonsync_outcome(with_repeat: bool) -> BoxedStrategy<Outcome> {
     prop_oneof![
         3 => Just(Outcome::Unsync),
         2 => (1i64..10_000_000_000).prop_map(|e| Outcome::Stale { extra_ns: e }),
@@ -559,6 +643,7 @@ fn nonsync_outcome() -> BoxedStrategy<Outcome> {
         3 => any::<bool>().prop_map(|grace| Outcome::NoReply { grace }),
         2 => any::<bool>().prop_map(|grace| Outcome::PhcFail { grace }),
         1 => any::<u8>().prop_map(|k| Outcome::Other { k }),
+        2 => if with_repeat { Just(Outcome::Repeat).boxed() } else { Just(Outcome::Unsync).boxed() },
     ]
     .boxed()
 }
@@ -575,7 +660,7 @@ fn gap_strategy() -> BoxedStrategy<i64> {
 }
 
 fn c08_strategy() -> BoxedStrategy<HistCase> {
-    let step = (gap_strategy(), prop_oneof![5 => sync_outcome(), 6 => nonsync_outcome()]).prop_map(|(gap_ns, outcome)| Step { gap_ns, outcome });
+    let step = (gap_strategy(), prop_oneof![5 => sync_outcome(), 6 => nonsync_outcome(true)]).prop_map(|(gap_ns, outcome)| Step { gap_ns, outcome });
     (
         prop_oneof![Just(1000u32), Just(50_000u32), any::<u32>()],
         0i64..3_000_000_000_000,
@@ -593,8 +678,8 @@ fn c08_strategy() -> BoxedStrategy<HistCase> {
 }
 
 fn c09_strategy() -> BoxedStrategy<HistCase> {
-    let ns_step = (gap_strategy(), nonsync_outcome()).prop_map(|(gap_ns, outcome)| Step { gap_ns, outcome });
-    let any_step = (gap_strategy(), prop_oneof![1 => sync_outcome(), 2 => nonsync_outcome()]).prop_map(|(gap_ns, outcome)| Step { gap_ns, outcome });
+    let ns_step = (gap_strategy(), nonsync_outcome(false)).prop_map(|(gap_ns, outcome)| Step { gap_ns, outcome });
+    let any_step = (gap_strategy(), prop_oneof![1 => sync_outcome(), 2 => nonsync_outcome(false)]).prop_map(|(gap_ns, outcome)| Step { gap_ns, outcome });
     (
         prop_oneof![Just(1000u32), Just(50_000u32), 0u32..1_000_000_000],
         prop_oneof![7 => 0i64..1_000_000_000_000, 3 => 0i64..100_000_000_000_000],
@@ -641,7 +726,7 @@ struct LoopState {
 const REAL_BASE: i128 = 1_750_000_000_000_000_000;
 
 /// Build the message for a step processed at (mono, real).
-fn message_for(o: &Outcome, mono: i128, real: i128) -> (Message, Option<WireReport>) {
+fn message_for(o: &Outcome, mono: i128, real: i128, last: Option<&WireReport>) -> (Message, Option<WireReport>) {
     let mk = |leap: u16, ref_age: i128, interval: WireFloat, offset: WireFloat, delay: WireFloat, disp: WireFloat| WireReport {
         ref_id: 0x50484330,
         leap,
@@ -682,6 +767,13 @@ fn message_for(o: &Outcome, mono: i128, real: i128) -> (Message, Option<WireRepo
         Outcome::PhcFail { grace: true } => (Message::PhcErrorBoundRetrievalFailedGracePeriod, None),
         Outcome::PhcFail { grace: false } => (Message::PhcErrorBoundRetrievalFailed, None),
         Outcome::Other { k } => (other_message(*k), None),
+        Outcome::Repeat => match last {
+            Some(r) => (msg_data(r, 0, mono), Some(*r)),
+            None => {
+                let r = mk(3, 1_000_000_000, WireFloat::pow2(4), dflt.0, dflt.1, dflt.2);
+                (msg_data(&r, 0, mono), Some(r))
+            }
+        },
     }
 }
 
@@ -736,8 +828,12 @@ pub fn run_history(case: &HistCase, env: &mut Env) -> Result<HistRun, String> {
     // Messages are all queued up front (as a burst of polls); the virtual clock is advanced by the
     // sink callback so that each message is processed at its scheduled instant.
     let mut first_time: Option<i128> = None;
+    let mut last_report: Option<WireReport> = None;
     for (i, tm) in &sched {
-        let (msg, _r) = message_for(&case.steps[*i].outcome, *tm, REAL_BASE + *tm);
+        let (msg, r) = message_for(&case.steps[*i].outcome, *tm, REAL_BASE + *tm, last_report.as_ref());
+        if r.is_some() {
+            last_report = r;
+        }
         if outcome_class(&case.steps[*i].outcome).is_some() {
             st.borrow_mut().publishing_steps.push(*i);
             st.borrow_mut().times.push((*tm, REAL_BASE + *tm));
@@ -887,10 +983,30 @@ fn check_c08_case(case: &HistCase, env: &mut Env) -> Verdict {
     let mut seen_sync = false;
     let mut k = 0usize;
     let mut gen = run.start_generation;
+    let mut model_last_report: Option<WireReport> = None;
     for (i, s) in case.steps.iter().enumerate() {
         t += s.gap_ns as i128;
         let Some(class) = classes[i] else { continue };
-        let (_msg, report) = message_for(&s.outcome, t, REAL_BASE + t);
+        let (_msg, report) = message_for(&s.outcome, t, REAL_BASE + t, model_last_report.as_ref());
+        if report.is_some() {
+            model_last_report = report;
+        }
+        // a repeated report is classified by its age now; inside the one-second band below eight
+        // intervals both classes are admissible and the history is not judged any further
+        let class = if matches!(s.outcome, Outcome::Repeat) {
+            v.label("repeated-report");
+            let adm = repeat_classes(report.as_ref().unwrap(), REAL_BASE + t);
+            if adm.len() != 1 {
+                v.label("repeated-report-in-tolerance-band");
+                break;
+            }
+            if adm[0] != Class::FreeRunning {
+                v.label("repeated-report-changed-class");
+            }
+            adm[0]
+        } else {
+            class
+        };
         if class == Class::Synchronized {
             seen_sync = true;
             model_as_of = t;
@@ -948,7 +1064,7 @@ impl Property for C08 {
     type Case = HistCase;
     const ID: &'static str = "C08";
     fn rule() -> String {
-        "cases = histories (0..40 steps, gaps 1 ns..1500 s) of poll outcomes from a fresh daemon: Sync (wire-level report, leap 0..2, interval 2^-2..2^10 s, reference-time age in [0, 8I-1s], optional PHC bound), Unsync (leap 3), Stale (age > 8I), Unusable (leap > 3 or future reference time), NoReply/PhcFail within or beyond grace, and non-poll messages; random drift setting; optionally a pre-existing valid segment. The real process_messages loop consumes them over a real mpsc mailbox into a real ShmWriter on tmpfs; after every publication the record is read back through ShmReader and through PROTOCOL.md offsets. Oracle: reference updater model (as_of/bound of the latest Sync outcome, void_after = as_of.sec+1000, drift, status = class of latest outcome once a Sync was seen, exactly one publication per outcome). Non-trivial: history contains Sync, then >= 1 non-Sync, then Sync; or >= 3 distinct outcome kinds.".into()
+        "cases = histories (0..40 steps, gaps 1 ns..1500 s) of poll outcomes from a fresh daemon: Sync (wire-level report, leap 0..2, interval 2^-2..2^10 s, reference-time age in [0, 8I-1s], optional PHC bound), Unsync (leap 3), Stale (age > 8I), Unusable (leap > 3 or future reference time), NoReply/PhcFail within or beyond grace, Repeat (chronyd repeats its previous report bit for bit: the class follows from its age now), and non-poll messages; random drift setting; optionally a pre-existing valid segment. The real process_messages loop consumes them over a real mpsc mailbox into a real ShmWriter on tmpfs; after every publication the record is read back through ShmReader and through PROTOCOL.md offsets. Oracle: reference updater model (as_of/bound of the latest Sync outcome, void_after = as_of.sec+1000, drift, status = class of latest outcome once a Sync was seen, exactly one publication per outcome). Non-trivial: history contains Sync, then >= 1 non-Sync, then Sync; or >= 3 distinct outcome kinds.".into()
     }
     fn cases(tier: Tier) -> u64 {
         match tier {
